@@ -44,6 +44,8 @@ struct Th {
     status: Status,
     name: String,
     wait_label: &'static str,
+    /// woken when this thread is given the baton (avoids waking every waiting thread)
+    cv: std::sync::Arc<Condvar>,
 }
 
 #[derive(Clone, Debug)]
@@ -73,9 +75,22 @@ struct Sched {
 static SCHED: Mutex<Option<Sched>> = Mutex::new(None);
 static CV: Condvar = Condvar::new();
 
+thread_local! {
+    static TID_CACHE: std::cell::Cell<i64> = const { std::cell::Cell::new(0) };
+}
+
 fn gettid() -> i64 {
-    // SAFETY: plain syscall without arguments.
-    unsafe { libc::syscall(libc::SYS_gettid) as i64 }
+    // Cached per thread; falls back to the syscall while thread-locals are being destroyed.
+    TID_CACHE
+        .try_with(|c| {
+            if c.get() == 0 {
+                // SAFETY: plain syscall without arguments.
+                c.set(unsafe { libc::syscall(libc::SYS_gettid) as i64 });
+            }
+            c.get()
+        })
+        // SAFETY: plain syscall without arguments.
+        .unwrap_or_else(|_| unsafe { libc::syscall(libc::SYS_gettid) as i64 })
 }
 
 fn lock() -> std::sync::MutexGuard<'static, Option<Sched>> {
@@ -168,6 +183,7 @@ impl Sched {
         if let Status::Yielded(_) = self.threads[self.current].status {
             self.threads[self.current].status = Status::Runnable;
         }
+        self.threads[self.current].cv.notify_all();
     }
 }
 
@@ -182,6 +198,7 @@ fn wait_starting(mut g: std::sync::MutexGuard<'static, Option<Sched>>) -> std::s
 
 /// Block the calling thread until it holds the baton.
 fn wait_for_baton(mut g: std::sync::MutexGuard<'static, Option<Sched>>, me: usize) {
+    let cv = g.as_ref().unwrap().threads[me].cv.clone();
     loop {
         {
             let s = g.as_ref().unwrap();
@@ -189,7 +206,7 @@ fn wait_for_baton(mut g: std::sync::MutexGuard<'static, Option<Sched>>, me: usiz
                 return;
             }
         }
-        g = CV.wait(g).unwrap_or_else(|p| p.into_inner());
+        g = cv.wait(g).unwrap_or_else(|p| p.into_inner());
     }
 }
 
@@ -264,7 +281,7 @@ pub fn before_spawn(name: &str) -> usize {
     if my_id(s).is_none() {
         return usize::MAX;
     }
-    s.threads.push(Th { status: Status::Starting, name: name.to_string(), wait_label: "" });
+    s.threads.push(Th { status: Status::Starting, name: name.to_string(), wait_label: "", cv: std::sync::Arc::new(Condvar::new()) });
     s.expected_starting += 1;
     s.threads.len() - 1
 }
@@ -432,12 +449,33 @@ pub fn run_one(cfg: &Config, prefix: &[u8], body: &(dyn Fn() -> String + Sync)) 
         // ---- child ----
         // SAFETY: closing the read end we do not use.
         unsafe { libc::close(fds[0]) };
+        // The forked main thread inherited the runner's cached thread id.
+        TID_CACHE.with(|c| c.set(0));
+        // All threads of one execution run one at a time anyway: keep them on one processor so
+        // that a baton hand-off is a local context switch instead of a cross-processor wake-up
+        // (which costs hundreds of microseconds on this virtual machine).
+        if std::env::var_os("VSCHED_NO_PIN").is_none() {
+            // SAFETY: plain libc calls on a zeroed cpu_set_t owned by this frame.
+            unsafe {
+                let mut allowed: libc::cpu_set_t = std::mem::zeroed();
+                if libc::sched_getaffinity(0, size_of::<libc::cpu_set_t>(), &mut allowed) == 0 {
+                    let cpus: Vec<usize> = (0..libc::CPU_SETSIZE as usize).filter(|&i| libc::CPU_ISSET(i, &allowed)).collect();
+                    if !cpus.is_empty() {
+                        let slot = std::env::var("VERIF_JOB_SLOT").ok().and_then(|v| v.parse::<usize>().ok()).unwrap_or(libc::getppid() as usize);
+                        let pick = cpus[slot % cpus.len()];
+                        let mut one: libc::cpu_set_t = std::mem::zeroed();
+                        libc::CPU_SET(pick, &mut one);
+                        libc::sched_setaffinity(0, size_of::<libc::cpu_set_t>(), &one);
+                    }
+                }
+            }
+        }
         {
             let mut g = lock();
             let mut tid_of = HashMap::new();
             tid_of.insert(gettid(), 0);
             *g = Some(Sched {
-                threads: vec![Th { status: Status::Runnable, name: "root".into(), wait_label: "" }],
+                threads: vec![Th { status: Status::Runnable, name: "root".into(), wait_label: "", cv: std::sync::Arc::new(Condvar::new()) }],
                 tid_of,
                 current: 0,
                 progress: 0,
